@@ -12,6 +12,8 @@ C10-F1 C10 b2a9ded
 C10-F2 C10 01d979a
 C10-F3 C10 71c4c37
 C10-F4 C10 1de2659
+C10-F6 C10 03bc525
+C10-F7 C10 4deb1bb
 C05-F1 C05 a7d044c
 C04-F1 C04 08fc594
 C04-F2 C04 e90a80e
